@@ -28,7 +28,7 @@ ASSUMPTIONS = [
 ]
 SETTINGS: Dict[str, Dict[str, Any]] = {
     "quick": {"cases": 192, "budget_s": 60, "minimums": {"cells_checked": 30000, "nontrivial": 60, "detail_rows": 600}},
-    "thorough": {"cases": 3600, "budget_s": 420, "minimums": {"cells_checked": 300000, "nontrivial": 500, "detail_rows": 8000}},
+    "thorough": {"cases": 3600, "budget_s": 420, "minimums": {"cells_checked": 180000, "nontrivial": 300, "detail_rows": 4800}},
 }
 
 
